@@ -8,7 +8,7 @@
    (ReaderSpecType.dt_agree), and data bytes that start with the specification's data (the reader hands back the rest
    of the message, i.e. including up to 7 bytes of object-header padding). *)
 From HV Require Import Base.Prelude Base.Outcome Base.Bytes Spec.Parse Spec.FormatMsg
-  Model.CodecMsg Model.CodecType Model.CodecAttr
+  Model.CodecMsg Model.CodecType Model.CodecAttr Model.CodecAttrRepaired
   Proofs.RobustNoPanicBase Proofs.RobustNoPanicOhdr Proofs.RobustNoPanicType
   Proofs.ReaderSpecBase Proofs.ReaderSpecDataspace Proofs.ReaderSpecType.
 
@@ -216,6 +216,87 @@ Proof.
   destruct (dec_dataspace sb) as [dsv| |]; cbn [obind]; [|exact I|destruct DSA].
   rewrite A3.
   assert (NAME : firstn (N.to_nat (P1 - 1 - 9)) nameb = name).
+  { rewrite HN. apply firstn_app_exact. unfold blen in LN'. blia. }
+  assert (DTA : dt_class dv = 0 \/ dt_class dv = 1 \/ dt_class dv = 3 -> dt_agree t dv).
+  { intros C. unfold dec_datatype in DT. rewrite (dec_dt_class _ _ _ DT) in C.
+    destruct (datatype_reader_spec false tb t tg0 Hbt C E0) as (v' & D' & AG).
+    unfold dec_datatype in D'. rewrite DT in D'. injection D' as <-. exact AG. }
+  destruct (P3 <? blen bs) eqn:LP.
+  - destruct (MaxAttributeSize <? blen bs - P3); [exact I|].
+    unfold slice_from. rewrite (proj2 (N.leb_le P3 (blen bs))) by blia. cbn [obind].
+    cbn [err_or]. unfold at_agree. cbn [atp_name atp_ds atp_dt atp_data as_name as_space as_dtype as_data].
+    split; [exact NAME|]. split; [exact DSA|]. split; [exact DTA|].
+    (* data: the specification's bytes are the first ones of the rest of the message *)
+    unfold slice in SD.
+    destruct ((P3 <=? P3 + nelem sp * dtype_size t) && (P3 + nelem sp * dtype_size t <=? blen bs)); [|discriminate].
+    injection SD as <-. bnorm. rewrite firstn_length. f_equal.
+    rewrite skipn_length. unfold blen in *. blia.
+  - apply N.ltb_ge in LP.
+    cbn [err_or]. unfold at_agree. cbn [atp_name atp_ds atp_dt atp_data as_name as_space as_dtype as_data].
+    split; [exact NAME|]. split; [exact DSA|]. split; [exact DTA|].
+    destruct dat; [reflexivity|]. cbn [length] in LD. exfalso. blia.
+Qed.
+
+(* ------------------------------------------------------------------ version 2, for the REPAIRED reader
+   (Model/CodecAttrRepaired.v dec_attribute_gen false: notes/fixes/c06-attribute-v2-padding.patch applied).  For the reader
+   as it is (dec_attribute_gen true = dec_attribute) the statement is refuted: ReaderSpecAttr.attribute_v2_padding_refuted. *)
+Lemma attribute_v2_repaired_reader_spec (lsz : nat) (pad_ok : bool) (bs : bytes) (a : attribute_spec) (tg : list tag) :
+  bytes_ok bs = true -> blen bs < 65536 ->
+  lsz = 4%nat \/ lsz = 8%nat ->
+  spec_dec_attribute strict lsz pad_ok bs = Ok (a, tg) ->
+  index bs 0 = Ok 2 ->
+  simple_rank0 (as_space a) = false ->
+  err_or (at_agree a) (dec_attribute_gen false false bs).
+Proof.
+  intros Hb Hlen Hl H HV NS. unfold spec_dec_attribute in H.
+  rewrite (at_pos_0 bs) in H. assert (P0 : 0 <= blen bs) by blia.
+  s_byte H ver B1 I0. s_guard H GV.
+  assert (ver = 2) by congruence.
+  subst ver. clear GV.
+  s_byte H fl B2 I1. s_guard H GF.
+  change (0 + 1) with 1 in *. change (1 + 1) with 2 in *.
+  s_u H ns B3 RN. s_u H ts B4 RT. s_u H ss B5 RS.
+  change (N.of_nat 2) with 2 in *. change (2 + 2) with 4 in *. change (4 + 2) with 6 in *. change (6 + 2) with 8 in *.
+  change (2 =? 3) with false in H. change (2 =? 1) with false in H. cbn [obind] in H. cbv beta iota in H.
+  s_take H nameb B6 SN LN. rewrite N2Nat.id in *.
+  s_zeros H B7 Z1. change (N.of_nat 0) with 0 in *.
+  remember (8 + ns + 0) as P1 eqn:HP1.
+  destruct (p_cstr nameb) as [[name z]| |] eqn:E; cbn [obind] in H; try discriminate H. s_guard H GZ.
+  s_take H tb B8 ST LT. rewrite N2Nat.id in *.
+  s_zeros H B9 Z2. change (N.of_nat 0) with 0 in *.
+  remember (P1 + ts + 0) as P2 eqn:HP2.
+  destruct (spec_dec_datatype strict false tb) as [[t tg0]| |] eqn:E0; cbn [obind] in H; try discriminate H.
+  s_take H sb B10 SS LS. rewrite N2Nat.id in *.
+  s_zeros H B11 Z3. change (N.of_nat 0) with 0 in *.
+  remember (P2 + ss + 0) as P3 eqn:HP3.
+  destruct (spec_dec_dataspace lsz false sb) as [sp| |] eqn:E1; cbn [obind] in H; try discriminate H.
+  s_take H dat B12 SD LD. rewrite N2Nat.id in *.
+  s_end H PE PF ZZ.
+  injection H as <- <-. cbn [as_version as_space] in *.
+  (* name *)
+  apply andb_true_iff in GZ as [GZ1 GZ2]. apply Nat.eqb_eq in GZ1.
+  pose proof (p_cstr_all _ _ _ E GZ1) as HN.
+  assert (LN' : ns = blen name + 1).
+  { unfold blen. rewrite <- (N2Nat.id ns), <- LN, HN, app_length. cbn [length]. blia. }
+  (* alignment *)
+  assert (A1 : 8 + ns = P1) by blia.
+  assert (A2 : P1 + ts = P2) by blia.
+  assert (A3 : P2 + ss = P3) by blia.
+  unfold dec_attribute_gen, rd16.
+  rewrite (ltb_false_of_le (blen bs) 8) by blia. rewrite I0. cbn [obind].
+  rewrite RN. cbn [obind]. rewrite RT. cbn [obind]. rewrite RS. cbn [obind].
+  change (3 <=? 2) with false. cbv beta iota. change (2 <? 2) with false. cbv beta iota.
+  rewrite (ltb_false_of_le (blen bs) (8 + ns)) by blia.
+  replace (0 <? ns) with true by (symmetry; apply N.ltb_lt; blia).
+  rewrite (slice_prefix bs 8 (8 + ns) (8 + ns - 1) nameb SN) by blia. cbn [obind].
+  rewrite A1. rewrite (ltb_false_of_le (blen bs) (P1 + ts)) by blia. rewrite ST. cbn [obind].
+  pose proof (slice_bytes_ok _ _ _ _ Hb ST) as Hbt.
+  destruct (dec_datatype tb) as [dv| |] eqn:DT; cbn [obind]; [|exact I|exfalso; revert DT; apply dec_datatype_no_panic].
+  rewrite A2. rewrite (ltb_false_of_le (blen bs) (P2 + ss)) by blia. rewrite SS. cbn [obind].
+  pose proof (dataspace_reader_spec lsz false sb sp Hl E1 NS) as DSA.
+  destruct (dec_dataspace sb) as [dsv| |]; cbn [obind]; [|exact I|destruct DSA].
+  rewrite A3.
+  assert (NAME : firstn (N.to_nat (P1 - 1 - 8)) nameb = name).
   { rewrite HN. apply firstn_app_exact. unfold blen in LN'. blia. }
   assert (DTA : dt_class dv = 0 \/ dt_class dv = 1 \/ dt_class dv = 3 -> dt_agree t dv).
   { intros C. unfold dec_datatype in DT. rewrite (dec_dt_class _ _ _ DT) in C.
